@@ -10,6 +10,7 @@ CONSTANTS
   MaxCount = 2
   TickSteps = {1, 3}
   MaxTracked = 2
+  SweepCap = 0
 VIEW view
 CONSTRAINT Bounded
 INVARIANTS TypeOK OneRecordPerRegistration PostSweepExact ExpiredNeverMatchesAfterSweep
